@@ -10,19 +10,25 @@
 EXTENDS ZervOps
 
 \* ------------------------------------------------------------ the machine ---
-VARIABLES a, v, ctx, sch, pc, li, k, specs, err
-vars == <<a, v, ctx, sch, pc, li, k, specs, err>>
+VARIABLES a, ra, v, ctx, sch, pc, li, k, specs, err
+vars == <<a, ra, v, ctx, sch, pc, li, k, specs, err>>
+
+\* the precedence order is part of the schema in effect: a preset has the default one, a
+\* --schema-ron or stdin schema may carry its own (a level that is left out is never processed)
+Order == IF a.schema.kind = "ron" THEN a.schema.order
+         ELSE IF a.schema.kind = "preset" THEN DefaultOrder
+         ELSE IF a.src.hasSchema THEN a.src.order ELSE DefaultOrder
 
 \* ctx = VCS context: [distance, dirty (NONE | 0 | 1), branch, hash, ts] as opaque tokens / numbers
 InitWith(args) ==
-  /\ a = args /\ v = args.src.v /\ ctx = args.src.ctx /\ sch = args.src.sch
+  /\ a = args /\ ra = [ov |-> args.ov, bp |-> args.bp] /\ v = args.src.v /\ ctx = args.src.ctx /\ sch = args.src.sch
   /\ pc = "validate" /\ li = 0 /\ k = 0 /\ specs = <<>> /\ err = FALSE
 
-Fail == pc' = "error" /\ err' = TRUE /\ UNCHANGED <<a, v, ctx, sch, li, k, specs>>
+Fail == pc' = "error" /\ err' = TRUE /\ UNCHANGED <<a, ra, v, ctx, sch, li, k, specs>>
 
 Validate == /\ pc = "validate"
             /\ IF ArgsConflict(a) THEN Fail
-               ELSE pc' = "vcs" /\ UNCHANGED <<a, v, ctx, sch, li, k, specs, err>>
+               ELSE pc' = "vcs" /\ UNCHANGED <<a, ra, v, ctx, sch, li, k, specs, err>>
 ApplyVcsOverrides ==
   /\ pc = "vcs"
   /\ ctx' = [ctx EXCEPT !.distance = IF a.vcs.distance # NONE THEN a.vcs.distance ELSE @,
@@ -30,21 +36,21 @@ ApplyVcsOverrides ==
                         !.branch = IF a.vcs.branch # NONE THEN a.vcs.branch ELSE @,
                         !.hash = IF a.vcs.hash # NONE THEN a.vcs.hash ELSE @,
                         !.ts = IF a.vcs.ts # NONE THEN a.vcs.ts ELSE @]
-  /\ pc' = "clean" /\ UNCHANGED <<a, v, sch, li, k, specs, err>>
+  /\ pc' = "clean" /\ UNCHANGED <<a, ra, v, sch, li, k, specs, err>>
 ApplyClean ==
   /\ pc = "clean"
   /\ ctx' = IF a.vcs.clean THEN [ctx EXCEPT !.distance = NONE, !.dirty = 0] ELSE ctx
-  /\ pc' = "tag" /\ UNCHANGED <<a, v, sch, li, k, specs, err>>
+  /\ pc' = "tag" /\ UNCHANGED <<a, ra, v, sch, li, k, specs, err>>
 \* --tag-version replaces the seven version variables (the tag text is parsed by
 \* the grammar modules; here a.tag is the parsed value or NoTag)
 ApplyTagVersion ==
   /\ pc = "tag"
   /\ v' = IF a.hasTag THEN a.tag ELSE v
-  /\ pc' = "context" /\ UNCHANGED <<a, ctx, sch, li, k, specs, err>>
+  /\ pc' = "context" /\ UNCHANGED <<a, ra, ctx, sch, li, k, specs, err>>
 ApplyContextControl ==
   /\ pc = "context"
   /\ ctx' = IF a.vcs.nbc THEN [ctx EXCEPT !.distance = 0, !.dirty = 0, !.branch = NONE, !.hash = NONE, !.ts = NONE] ELSE ctx
-  /\ pc' = "schema" /\ UNCHANGED <<a, v, sch, li, k, specs, err>>
+  /\ pc' = "schema" /\ UNCHANGED <<a, ra, v, sch, li, k, specs, err>>
 \* schema in effect: --schema-ron | --schema preset | the source's schema | standard
 ChooseSchema ==
   /\ pc = "schema"
@@ -55,45 +61,48 @@ ChooseSchema ==
                    ELSE IF a.src.hasSchema THEN sch
                    ELSE PresetSchema("standard", "", ctx.dirty, ctx.distance, hasPre, hasPost)
      IN IF ~ValidSchema(chosen) THEN Fail
-        ELSE /\ sch' = chosen /\ pc' = "walk" /\ li' = 1
+        ELSE /\ sch' = chosen /\ li' = 1
+             /\ pc' = IF Len(Order) = 0 THEN "stamp" ELSE "walk"
+             \* flag values that are templates ({{ minor }}, {{ distance }}, ...) are resolved once, here,
+             \* against the state before any bump (src/cli/version/args/resolved.rs)
+             /\ ra' = [ov |-> ResolveAll(a.ov, v, ctx), bp |-> ResolveAll(a.bp, v, ctx)]
              /\ UNCHANGED <<a, v, ctx, k, specs, err>>
 
-Order == DefaultOrder
 Level == Order[li]
 IsSection(lv) == lv \in {"Core", "ExtraCore", "Build"}
-Advance == IF li = Len(Order) THEN pc' = "stamp" /\ li' = li ELSE pc' = "walk" /\ li' = li + 1
+Advance == IF li >= Len(Order) THEN pc' = "stamp" /\ li' = li ELSE pc' = "walk" /\ li' = li + 1
 
 \* one by-name level: override, bump, reset lower
 ProcLevel ==
   /\ pc = "walk" /\ ~IsSection(Level)
-  /\ v' = ProcByName(v, Order, Level, a)
-  /\ Advance /\ UNCHANGED <<a, ctx, sch, k, specs, err>>
+  /\ v' = ProcByName(v, Order, Level, ra)
+  /\ Advance /\ UNCHANGED <<a, ra, ctx, sch, k, specs, err>>
 \* a section level: parse and validate its operations ...
 EnterSection ==
   /\ pc = "walk" /\ IsSection(Level)
   /\ LET r == SpecsOrError(a, SecOf(Level), Len(sch[SecOf(Level)])) IN
      IF r.err THEN Fail
      ELSE /\ specs' = r.specs /\ k' = 1 /\ pc' = "section"
-          /\ UNCHANGED <<a, v, ctx, sch, li, err>>
+          /\ UNCHANGED <<a, ra, v, ctx, sch, li, err>>
 \* ... then apply them from the lowest index to the highest, one step each
 SectionOp ==
   /\ pc = "section" /\ k <= Len(specs)
   /\ LET r == ApplySpec(v, sch, Order, SecOf(Level), specs[k]) IN
      IF r.err THEN Fail
      ELSE /\ v' = r.v /\ sch' = r.sch /\ k' = k + 1
-          /\ UNCHANGED <<a, ctx, pc, li, specs, err>>
+          /\ UNCHANGED <<a, ra, ctx, pc, li, specs, err>>
 LeaveSection ==
   /\ pc = "section" /\ k > Len(specs)
-  /\ Advance /\ k' = 0 /\ specs' = <<>> /\ UNCHANGED <<a, v, ctx, sch, err>>
+  /\ Advance /\ k' = 0 /\ specs' = <<>> /\ UNCHANGED <<a, ra, v, ctx, sch, err>>
 \* a dirty work tree re-stamps the bumped timestamp with the wall clock ("now" token)
 BumpedTimestamp ==
   /\ pc = "stamp"
   /\ ctx' = IF ctx.dirty = 1 THEN [ctx EXCEPT !.ts = -2] ELSE ctx       \* -2 = the wall clock
-  /\ pc' = "normalize" /\ UNCHANGED <<a, v, sch, li, k, specs, err>>
+  /\ pc' = "normalize" /\ UNCHANGED <<a, ra, v, sch, li, k, specs, err>>
 Normalize ==
   /\ pc = "normalize"
   /\ v' = IF v.epoch = 0 THEN [v EXCEPT !.epoch = NONE] ELSE v
-  /\ pc' = "done" /\ UNCHANGED <<a, ctx, sch, li, k, specs, err>>
+  /\ pc' = "done" /\ UNCHANGED <<a, ra, ctx, sch, li, k, specs, err>>
 
 Next == \/ Validate \/ ApplyVcsOverrides \/ ApplyClean \/ ApplyTagVersion \/ ApplyContextControl
         \/ ChooseSchema \/ ProcLevel \/ EnterSection \/ SectionOp \/ LeaveSection
@@ -121,9 +130,12 @@ StepRank ==
 \* no operation ever changes a level above its own.  (One documented exception is
 \* built into the pre-release number: creating the pre-release sets the label too.)
 HigherLevelsUnchanged ==
-  (pc \in {"walk", "section"} /\ StepRank > 0) =>
+  (IsPermutation(Order) /\ pc \in {"walk", "section"} /\ StepRank > 0) =>
      \A name \in VarNames :
-        (RankOfVar(name) < StepRank /\ ~(name = "label" /\ v.pre.l = "none")) => Proj(v', name) = Proj(v, name)
+        (RankOfVar(name) < StepRank /\ ~(name = "label" /\ v.pre.l = "none")
+           \* the pre-release is one variable with two levels: a label operation always (re)sets its
+           \* number, also under a custom order that ranks the number above the label
+           /\ ~(name = "prenum" /\ pc = "walk" /\ Level = "PreReleaseLabel")) => Proj(v', name) = Proj(v, name)
 \* the walk never touches the VCS context, and literals are never reset
 WalkKeepsContext == pc \in {"walk", "section"} => ctx' = ctx
 =============================================================================
